@@ -431,7 +431,7 @@ class Gen:
     def at_rule(self, depth, sel_depth):
         kind = self.pick(["media", "media", "supports", "document", "layer", "container", "scope", "starting-style", "keyframes", "font-face", "statement", "page"])
         if kind == "starting-style":
-            return {"t": "at", "name": "starting-style", "pre": [], "body": "rules", "rules": self.rules(depth - 1, sel_depth)}
+            return {"t": "at", "name": "starting-style", "pre": [], "body": "rules", "rules": self.rules(depth - 1, sel_depth, in_group=True)}
         if kind == "media":
             pre = []
             if self.chance(0.5):
@@ -447,7 +447,7 @@ class Gen:
                 n.ws = self.chance(0.5)
                 pre.append(n)
                 pre.append(simple(")", ctx="prelude"))
-            return {"t": "at", "name": "media", "pre": pre, "body": "rules", "rules": self.rules(depth - 1, sel_depth)}
+            return {"t": "at", "name": "media", "pre": pre, "body": "rules", "rules": self.rules(depth - 1, sel_depth, in_group=True)}
         if kind == "supports":
             pre = [T("(", None, "(", ctx="prelude", ws=True), ident("display", ctx="prelude"), simple(":", ctx="prelude"), ident("grid", ctx="prelude", ws=self.chance(0.5)), simple(")", ctx="prelude")]
             if self.chance(0.3):
@@ -461,16 +461,16 @@ class Gen:
                 # selector() below two levels of plain parentheses is a selector all the same
                 pre = [T("(", None, "(", ctx="prelude", ws=True), T("(", None, "(", ctx="prelude"), func("selector", ctx="prelude"), delim(".", ctx="prelude"), ident(self.pick(CLASSES), ctx="prelude", cls=True, wsmean="mustnot"), simple(")", ctx="prelude"), simple(")", ctx="prelude"), ident("and", ctx="prelude", ws=True), T("(", None, "(", ctx="prelude", ws=True), ident("display", ctx="prelude"), simple(":", ctx="prelude"), ident("grid", ctx="prelude", ws=True), simple(")", ctx="prelude"), simple(")", ctx="prelude")]
                 self.n_class += 1
-            return {"t": "at", "name": "supports", "pre": pre, "body": "rules", "rules": self.rules(depth - 1, sel_depth)}
+            return {"t": "at", "name": "supports", "pre": pre, "body": "rules", "rules": self.rules(depth - 1, sel_depth, in_group=True)}
         if kind == "document":
             pre = [func("url-prefix", ctx="prelude", ws=True), string("https://x"), simple(")", ctx="prelude")]
             if self.chance(0.4):
                 pre = [func("domain", ctx="prelude", ws=True), ident("mozilla", ctx="prelude"), delim(".", ctx="prelude", wsmean="mustnot"), ident("org", ctx="prelude", wsmean="mustnot"), simple(")", ctx="prelude")]
             # (the vendor-prefixed form is the one that shipped)
-            return {"t": "at", "name": self.pick(["document", "-moz-document"]), "pre": pre, "body": "rules", "rules": self.rules(depth - 1, sel_depth)}
+            return {"t": "at", "name": self.pick(["document", "-moz-document"]), "pre": pre, "body": "rules", "rules": self.rules(depth - 1, sel_depth, in_group=True)}
         if kind == "layer":
             pre = self.pick([[ident("base", ctx="prelude", ws=True)], [ident("theme", ctx="prelude", ws=True)], [], [ident("fw", ctx="prelude", ws=True), delim(".", ctx="prelude", wsmean="mustnot"), ident("ui", ctx="prelude", wsmean="mustnot")]])
-            return {"t": "at", "name": "layer", "pre": pre, "body": "rules", "rules": self.rules(depth - 1, sel_depth)}
+            return {"t": "at", "name": "layer", "pre": pre, "body": "rules", "rules": self.rules(depth - 1, sel_depth, in_group=True)}
         if kind == "container":
             pre = [ident("card", ctx="prelude", ws=True), T("(", None, "(", ctx="prelude", ws=True), ident("min-width", ctx="prelude"), simple(":", ctx="prelude")]
             n = self.numeric()
@@ -478,11 +478,11 @@ class Gen:
             pre.extend([n, simple(")", ctx="prelude")])
             if self.chance(0.3):
                 pre += [ident("and", ctx="prelude", ws=True), func("style", ctx="prelude", ws=True, wsmean="must"), ident("--theme", ctx="prelude"), simple(":", ctx="prelude"), ident("a", ctx="prelude", ws=True), delim(".", ctx="prelude", wsmean="mustnot"), ident("b", ctx="prelude", wsmean="mustnot"), simple(")", ctx="prelude")]
-            return {"t": "at", "name": "container", "pre": pre, "body": "rules", "rules": self.rules(depth - 1, sel_depth)}
+            return {"t": "at", "name": "container", "pre": pre, "body": "rules", "rules": self.rules(depth - 1, sel_depth, in_group=True)}
         if kind == "scope":
             pre = [T("(", None, "(", ctx="prelude", ws=True), delim(".", ctx="sel"), ident(self.pick(CLASSES), ctx="sel", cls=True, wsmean="mustnot"), simple(")", ctx="prelude")]
             self.n_class += 1
-            return {"t": "at", "name": "scope", "pre": pre, "body": "rules", "rules": self.rules(depth - 1, sel_depth)}
+            return {"t": "at", "name": "scope", "pre": pre, "body": "rules", "rules": self.rules(depth - 1, sel_depth, in_group=True)}
         if kind == "keyframes":
             pre = [ident(self.pick(["spin", "fade"]), ctx="prelude", ws=True)]
             frames = []
@@ -536,13 +536,16 @@ class Gen:
             x["kw_spelling"] = "Import"
         return x
 
-    def rules(self, depth, sel_depth, top=False, allow_host=True):
+    def rules(self, depth, sel_depth, top=False, allow_host=True, in_group=False):
         out = []
         for _ in range(self.r.randrange(1 if top else 0, 5 if top else 4)):
             r = self.r.random()
             if not top and getattr(self, "allow_imports", False) and self.chance(0.05):
                 # an import nested in a conditional group rule: rewritten where it stands
                 out.append(self.import_rule())
+            if in_group and self.chance(0.05):
+                # declarations written directly inside a group rule (`@scope (.card) { padding: 10rpx; .a {} }`)
+                out.append({"t": "declrun", "decls": self.declarations(1)})
             if top and getattr(self, "allow_cdo", False) and self.chance(0.04):
                 # `<!--` and `-->` between top-level rules are ignored by CSS
                 out.append({"t": "cdo", "which": self.pick(["cdo", "cdc"])})
